@@ -741,8 +741,8 @@ func judgeOM(res *omResult) proto.Rec {
 		rec.Verdict, rec.Why = "inconclusive", res.inconcl
 	}
 	for _, r := range res.rules {
-		rec.Obs["plans_fired"] += int64(r.Fired)
-		rec.Obs["plans_satisfied"] += int64(r.Satisfied)
+		rec.Obs["plans_fired"] += int64(atomic.LoadInt32(&r.Fired))
+		rec.Obs["plans_satisfied"] += int64(atomic.LoadInt32(&r.Satisfied))
 	}
 	rec.Obs["errors_seen"] = res.errsSeen
 	rec.NonTrivial = windowHit
